@@ -8,6 +8,7 @@ grep '^fixed:' KNOWN_FINDINGS.txt | while read -r _ prop commit rest; do
   p=${prop#property=}
   [ -n "${1:-}" ] && [ "$1" != "$p" ] && continue
   f=selftest/reverts/$commit.diff
+  if grep -q "^$commit " selftest/reverts/NEUTRAL.txt 2>/dev/null; then echo "$p $commit: neutral ($(grep "^$commit " selftest/reverts/NEUTRAL.txt | cut -d' ' -f2-))"; continue; fi
   [ -f "$f" ] || { echo "no revert patch for $commit"; continue; }
   out=$(selftest/run.sh "$f" "$p" quick --skip-suite </dev/null 2>&1 | grep SELFTEST | tail -1)
   echo "$p $commit: $out"
